@@ -298,6 +298,10 @@ class Subject:
             z(lambda: Q(1, "µs").to("ns"))
             z(lambda: u.parse_units("millimeter"))
             z(lambda: u.parse_units("milli" + self.names[0]))
+            # the very spellings the battery asks later (a lookup that fails before `define` must succeed after it)
+            z(lambda: u.parse_units("kilo" + self.names[0]))
+            z(lambda: u.parse_unit_name("kilo" + self.names[0]))
+            z(lambda: ("kilo" + self.names[0]) in u)
         else:
             raise ValueError(op)
 
